@@ -11,7 +11,10 @@ PROP = dict(
         dict(module="Tiered", cfg="MC_Tiered_design2w.cfg", tiers=("thorough",), timeout=3600)],
     schedules=dict(module="Tiered", sim_cfg="MC_Tiered_sim.cfg", depth=40, num={"quick": 60, "thorough": 1500},
                    cex=["MC_Tiered_asbuilt_OnlyF09a.cfg", "MC_Tiered_asbuilt_CompleteReadable.cfg", "MC_Tiered_asbuilt_MdReflectsUpdates.cfg",
-                        "MC_Tiered_asbuilt_NoResurrection.cfg", "MC_Tiered_asbuilt_DurableWhenIdle.cfg"]),
+                        "MC_Tiered_asbuilt_NoResurrection.cfg", "MC_Tiered_asbuilt_DurableWhenIdle.cfg",
+                        # coverage goals: shortest behaviours reaching schedule shapes worth forcing (ban protocol probes)
+                        "MC_Tiered_goal_DelMdPressure.cfg", "MC_Tiered_goal_SetMdPressure.cfg",
+                        "MC_Tiered_goal_PressureDuringCopy.cfg", "MC_Tiered_goal_PressureBeforeUnmark.cfg"]),
     trace=dict(module="TieredAbsTrace", cfg="TieredAbsTrace.cfg"),
     isolate=lambda head: bool((head.get("cfg") or {}).get("tags")),
     nontrivial=lambda recs: has(recs, "W", 3) and has(recs, "MarkComplete") and (has(recs, "SetMd") or has(recs, "Delete") or has(recs, "Pressure")),
